@@ -226,11 +226,28 @@ def run(tier, seed):
             f.sort(key=lambda r: (r[0], r[2]))
         rec.case("filter", (repr(a), repr(f)))
         check_filter_combine(rec, "filter", a, f)
+    # at scale: long traces (up to 60 rows over 16 positions, 1-6 outer iterations); the cache oracle stays exhaustive, so few distinct lines there
+    for _ in range(30 if tier == "quick" else 400):
+        rows = []
+        for m in range(rnd.randint(1, 6)):
+            for j in range(rnd.randint(0, 10)):
+                rows.append((m, j, rnd.randrange(16)))
+        if not rows:
+            continue
+        line_elems = rnd.choice([1, 2, 4])
+        evict_on = rnd.choice(["root", "M"])
+        writes = [(m, j, pos if rnd.random() < 0.8 else 16 + pos) for (m, j, pos) in rows if rnd.random() < 0.4]
+        rec.case("scale", ("buffet", repr(rows), repr(writes), line_elems, evict_on))
+        check_buffet(rec, "scale", rows, writes if rnd.random() < 0.6 else [], evict_on, line_elems, 16)
+        seq = [rnd.choice([0, 5, 9]) for _q in range(rnd.randint(8, 14))]
+        reads = [(0, j, p) for j, p in enumerate(seq)]
+        rec.case("scale", ("cache", tuple(seq)))
+        check_cache(rec, "scale", reads, 1, 16)
     return rec.result("seeded well-formed read (and read+write) traces over loop ranks (M, K) with <= %d rows over <= 4 positions; bindings evict-on root and "
                       "evict-on M; lines of 1 and 2 elements; buffet against a count of distinct (line, window) pairs by first-access kind and by contained "
                       "writes (staging-area writes excluded); cache against an exhaustive search over all replacement/bypass decisions at every capacity "
                       "from 0 to all lines in half-line steps (bounds and monotonicity too); filterTrace against a point-membership filter; directory "
-                      "listings compared before/after" % max_len)
+                      "listings compared before/after; plus seeded random traces at scale (up to 60 rows over 16 positions; cache: 8-14 rows over 3 lines)" % max_len)
 
 
 def replay(case):
